@@ -261,6 +261,7 @@ func replayMain(args []string) {
 	nsamples := fs.Int("samples", 6, "samples kept")
 	logPath := fs.String("log", "", "file receiving the non-case lines of the input (TLC's own output)")
 	poolDirFlag := fs.String("pools", poolDir, "directory of document pools")
+	only := fs.String("only", "", "replay only cases of this kind")
 	var dups int64
 	fs.Parse(args)
 	start := time.Now()
@@ -352,6 +353,9 @@ func replayMain(args []string) {
 					continue
 				}
 				for _, m := range subs {
+				if *only != "" && getString(m, "kind") != *only {
+					continue
+				}
 				if hangs.Load() >= *maxHangs {
 					mu.Lock()
 					sum.NotRun++
@@ -396,6 +400,10 @@ func replayMain(args []string) {
 				if confirmed {
 					hangs.Add(1)
 					res := Result{Class: why, Detail: firstLines(stderr, 40)}
+					if why == "crash" && strings.Contains(stderr, "DATA RACE") {
+						res.Class = "race"
+						res.Site = raceSite(stderr)
+					}
 					if why == "hang" {
 						res.Detail = fmt.Sprintf("no answer within %v (twice, second time with double budget in a fresh process)", budget)
 					} else {
@@ -558,7 +566,7 @@ func expandPool(m map[string]any, dir string) ([]map[string]any, error) {
 		return out, nil
 	}
 	name, ok := m["pool"].(string)
-	if !ok || getString(m, "kind") == "hist" || getString(m, "kind") == "sched" {
+	if !ok || getString(m, "kind") == "hist" || getString(m, "kind") == "sched" || getString(m, "kind") == "race" {
 		return []map[string]any{m}, nil
 	}
 	docs, err := loadPool(dir, name)
@@ -583,4 +591,16 @@ func expandPool(m map[string]any, dir string) ([]map[string]any, error) {
 		out = append(out, c)
 	}
 	return out, nil
+}
+
+func raceSite(stderr string) string {
+	lines := strings.Split(stderr, "\n")
+	for i, l := range lines {
+		if strings.HasPrefix(l, "Write at") || strings.HasPrefix(l, "Previous write at") {
+			if i+1 < len(lines) {
+				return strings.TrimSpace(lines[i+1])
+			}
+		}
+	}
+	return "?"
 }
